@@ -447,3 +447,67 @@ func FuzzBuild(f *testing.F) {
 		}
 	})
 }
+
+// TestC13FieldCount: rules around the 64-field limit built from valid filters only, in every mix of value
+// filters (-F), inter-field comparisons (-C) and keys, through the struct API and through the flag parser.
+func TestC13FieldCount(t *testing.T) {
+	n := 0
+	valF := rule.FilterSpec{Type: rule.ValueFilterType, LHS: "pid", Comparator: "!=", RHS: "1"}
+	cmpF := rule.FilterSpec{Type: rule.InterFieldFilterType, LHS: "auid", Comparator: "!=", RHS: "uid"}
+	strF := rule.FilterSpec{Type: rule.ValueFilterType, LHS: "subj_user", Comparator: "=", RHS: "u"}
+	for total := 60; total <= 70; total++ {
+		for pattern := 0; pattern < 6; pattern++ {
+			for _, keys := range [][]string{nil, {"k"}, {"k1", "k2"}} {
+				var fs []rule.FilterSpec
+				for i := 0; i < total; i++ {
+					f := valF
+					switch pattern {
+					case 1: // all comparisons
+						f = cmpF
+					case 2: // the last one is a comparison
+						if i == total-1 {
+							f = cmpF
+						}
+					case 3: // alternating
+						if i%2 == 1 {
+							f = cmpF
+						}
+					case 4: // everything from the 64th on is a comparison
+						if i >= 63 {
+							f = cmpF
+						}
+					case 5: // string fields (they also use the buffer)
+						f = strF
+					}
+					fs = append(fs, f)
+				}
+				c := C13Case{Kind: "build", TypeCode: int(rule.AppendSyscallRuleType), List: "exit", Action: "always", Filters: fs, Keys: keys}
+				hC13.Eval()
+				n++
+				if err := hx.Guard(propC13, c); err != nil {
+					hC13.Fail(t, "TestC13", c, "%v", err)
+				}
+				// the same rule as a line
+				var b strings.Builder
+				b.WriteString("-a always,exit")
+				for _, f := range fs {
+					fl := " -F "
+					if f.Type == rule.InterFieldFilterType {
+						fl = " -C "
+					}
+					b.WriteString(fl + f.LHS + f.Comparator + f.RHS)
+				}
+				for _, k := range keys {
+					b.WriteString(" -k " + k)
+				}
+				lc := C13Case{Kind: "parse", Line: []byte(b.String())}
+				hC13.Eval()
+				n++
+				if err := hx.Guard(propC13, lc); err != nil {
+					hC13.Fail(t, "TestC13", lc, "%v", err)
+				}
+			}
+		}
+	}
+	hC13.Extra("field_count_sweep_cases", n)
+}
